@@ -1,43 +1,54 @@
 package main
 
 import (
-	"encoding/json"
+	"crypto/sha256"
 	"fmt"
 	"os"
 
+	"github.com/massnetorg/mass-core/massutil"
 	"vh/env"
-	"vh/world"
+	"vh/inst"
+	"vh/simnode"
 )
 
 func main() {
 	d, _ := os.MkdirTemp("/dev/shm", "dbg")
 	defer os.RemoveAll(d)
 	env.Init(d)
-	var dumps [][]world.KV
-	var vols []string
-	for i, a := range os.Args[1:] {
-		var h []string
-		json.Unmarshal([]byte(a), &h)
-		w, err := world.New(fmt.Sprintf("%s/%d", d, i), world.Options{})
-		env.Must(err, "world")
-		for _, e := range h {
-			w.Apply(e)
-		}
-		dumps = append(dumps, w.RawDump())
-		v, _ := json.Marshal(w.I.W.VerifVolatile())
-		vols = append(vols, string(v))
-		fmt.Println(w.Key(), w.N.Tip().Hash)
+	env.SetConsensus(env.Small)
+	n, _ := simnode.New(d + "/n")
+	i, err := inst.OpenAt(inst.NewMemStore(), n, 20, inst.PubPass, nil)
+	env.Must(err, "inst")
+	i.W.VerifInitTaskChan()
+	W := i.W
+	id, _, _, err := W.CreateWallet("privpassA1", "w", 128)
+	env.Must(err, "create")
+	W.UseWallet(id)
+	W.NewAddress(massutil.AddressClassWitnessV0)
+	list, _ := W.GetAllAddressesWithPubkey()
+	pub := list[0].PubKey
+	dg := sha256.Sum256([]byte("x"))
+	chk := func(s string) {
+		_, _, e1 := W.GetMnemonic(id, "privpassA1")
+		_, e2 := W.ExportWallet(id, "privpassA1")
+		_, e3 := W.SignHash(pub, dg[:], []byte("privpassA1"))
+		fmt.Printf("%-40s getmn=%v export=%v sign=%v\n", s, e1, e2, e3)
 	}
-	fmt.Println(vols[0] == vols[1])
-	if vols[0] != vols[1] {
-		fmt.Println(vols[0])
-		fmt.Println(vols[1])
+	chk("fresh (locked)")
+	_, e := W.SignHash(pub, dg[:], []byte("privpassA1"))
+	fmt.Println("unlock:", e)
+	chk("after unlock")
+	for _, wp := range []string{"", "publicpassVerif1", "privpassA1privpassA1", "PRIVPASSA1", " privpassA1", "rivpassA1", "privpassA", "xprivpassA1"} {
+		W.SignHash(pub, dg[:], []byte(wp))
+		chk("after wrong sign " + wp)
+		W.ExportWallet(id, wp)
+		chk("after wrong export " + wp)
+		W.GetMnemonic(id, wp)
+		chk("after wrong getmn " + wp)
+		W.RemoveWallet(id, wp)
+		chk("after wrong remove " + wp)
+		W.ChangePrivPassphrase(wp, "privpassB9")
+		chk("after wrong chpriv " + wp)
 	}
-	a, b := dumps[0], dumps[1]
-	fmt.Println(len(a), len(b))
-	for i := 0; i < len(a) && i < len(b); i++ {
-		if string(a[i].K) != string(b[i].K) || string(a[i].V) != string(b[i].V) {
-			fmt.Printf("diff at %d: %q\n  %x\n  %x\n", i, a[i].K, a[i].V, b[i].V)
-		}
-	}
+	_ = e
 }
